@@ -50,6 +50,9 @@ type Config struct {
 	Hosts        int // number of simulated hosts to allocate (NUT + fake peers + spares)
 	Opts         []pubsub.Option
 	KeepPB       bool
+	// PreNUT, when set, runs after the simulated network exists (w.Net, w.H) and before the node under
+	// test is constructed; it may append to w.Cfg.Opts (options that need the ids of other hosts).
+	PreNUT func(w *World)
 }
 
 // SmallParams are the scaled-down gossipsub parameters used by generated
@@ -142,6 +145,10 @@ func New(t testing.TB, out *vh.Out, scn int, cfg Config, resetArgs M) *World {
 		w.mu.Unlock()
 	}
 	w.Ctx, w.Stop = context.WithCancel(context.Background())
+	if cfg.PreNUT != nil {
+		cfg.PreNUT(w)
+		cfg.Opts = w.Cfg.Opts
+	}
 	opts := []pubsub.Option{pubsub.WithRawTracer(w.Rec), pubsub.WithEventTracer(w.Rec)}
 	if cfg.QueueSize > 0 {
 		opts = append(opts, pubsub.WithPeerOutboundQueueSize(cfg.QueueSize))
